@@ -860,6 +860,30 @@ impl TreeBuilder {
 		self.tree.blocks.push(UB::new(name, b, parent));
 		self.tree.blocks.len() - 1
 	}
+	/// `add_invalid` for SKIP_POW universes: explicit difficulty, deterministic pseudo-proof (own hash), never
+	/// offered to the builder chain.
+	pub fn add_invalid_with_difficulty(&mut self, name: &str, parent: Option<usize>, spec: &uni::BlockSpec, diff: u64) -> usize {
+		assert!(self.skip_pow);
+		let prev = self.header_of(parent);
+		let fees: u64 = spec.txs.iter().map(|t| t.fee()).sum();
+		let rw = uni::coinbase(&self.kc, spec.reward_key, fees);
+		let mut b = Block::from_reward(&prev, &spec.txs, rw.0, rw.1, grin_core::pow::Difficulty::from_num(diff)).expect("from_reward");
+		b.header.timestamp = prev.timestamp + chrono::Duration::seconds(spec.dt);
+		if self.chain.set_txhashset_roots(&mut b).is_err() {
+			b.header.output_mmr_size = refmmr_size(prev.output_mmr_count() + b.outputs().len() as u64);
+			b.header.kernel_mmr_size = refmmr_size(prev.kernel_mmr_count() + b.kernels().len() as u64);
+			let _ = self.chain.set_prev_root_only(&mut b.header);
+		}
+		{
+			let seed = format!("{}/{}/{}/{}/invalid", prev.hash(), spec.reward_key, diff, spec.dt);
+			let h = blake2_rfc::blake2b::blake2b(32, &[], seed.as_bytes());
+			let hb = h.as_bytes();
+			let nonces: Vec<u64> = (0..grin_core::global::proofsize()).map(|k| (((hb[2 * k] as u64) << 8 | hb[2 * k + 1] as u64) & 0x3ff) as u64).collect();
+			b.header.pow.proof = grin_core::pow::Proof::new(nonces);
+		}
+		self.tree.blocks.push(UB::new(name, b, parent));
+		self.tree.blocks.len() - 1
+	}
 	/// Add a corrupted variant of valid block `of` (same parent) from the closed catalogue.
 	pub fn add_corrupt(&mut self, of: usize, c: &crate::corrupt::Corruption) -> Option<usize> {
 		let parent = self.tree.blocks[of].parent;
